@@ -41,9 +41,12 @@ THEOREMS = [
     "OllamaVerif.C07.prefix_reuse_sound",
     "OllamaVerif.C07.coherent_invariant",
     "OllamaVerif.C07.coherent_invariant_partial",
+    "OllamaVerif.C07.forward_exposes",
     "OllamaVerif.C07.fresh_equiv",
+    "OllamaVerif.C07.coherent_init",
     "OllamaVerif.C07.F3_pinned_reset_leaves_stale_entries",
     "OllamaVerif.Tie.C07.tree_reset_end_known",
+    "OllamaVerif.Tie.C07.tree_trace",
 ]
 OVERLAY = {
     "runner/ollamarunner/zz_verif_c07_test.go": "runner_ollamarunner/zz_verif_c07_test.go",
